@@ -25,6 +25,8 @@ struct xm {
 	int nextid;
 	char out[1024];		/* what the command prints (lines joined, each with newline) */
 	int unsure_cur;		/* the reference leaves the current line open after this command */
+	int modified;		/* buffer changed since it was loaded: 0 no, 1 yes, 2 not known to the reference
+				 * (an accepted text command that left the lines as they were may or may not count) */
 };
 
 enum { XA_NONE, XA_NUM, XA_DOT, XA_DOLLAR, XA_MARK, XA_FWD, XA_BWD };
@@ -248,7 +250,26 @@ static void xm_range_text(const struct xm *m, int b, int e, char *out, int max)
  * execute; returns 0 when accepted, 1 when rejected (model unchanged).
  * files: callback returning the content of a file for :r, or NULL when it does not exist.
  */
+static int refex_exec_core(struct xm *m, const struct xcmd *c, const char *(*filetext)(const char *));
 static int refex_exec(struct xm *m, const struct xcmd *c, const char *(*filetext)(const char *))
+{
+	int ids[XM_MAXLN], n = m->n, i, r, same;
+	for (i = 0; i < n; i++)
+		ids[i] = m->ln[i].id;
+	r = refex_exec_core(m, c, filetext);
+	if (r || c->cmd == XC_P || c->cmd == XC_EQ || c->cmd == XC_K || c->cmd == XC_Y || c->cmd == XC_RS)
+		return r;
+	same = n == m->n;
+	for (i = 0; same && i < n; i++)
+		same = ids[i] == m->ln[i].id;
+	if (!same)
+		m->modified = 1;
+	else if (m->modified == 0)
+		m->modified = 2;
+	return r;
+}
+
+static int refex_exec_core(struct xm *m, const struct xcmd *c, const char *(*filetext)(const char *))
 {
 	int b, e, cur = m->cur, k;
 	char buf[1024];
@@ -354,6 +375,31 @@ static int refex_exec(struct xm *m, const struct xcmd *c, const char *(*filetext
 	case XC_RS:
 		xm_regput(m, c->reg, c->text, 1);
 		return 0;
+	case XC_FILT: {
+		/* a filter is refused while the buffer has unsaved changes; c->arg is "tr o 0" */
+		char up[1024];
+		int i;
+		if (m->modified)
+			return 1;
+		xm_range_text(m, b, e, up, sizeof(up));
+		for (i = 0; up[i]; i++)
+			if (up[i] == 'o')
+				up[i] = '0';
+		xm_splice(m, b, e + 1, up);
+		return 0;
+	}
+	case XC_AT: {
+		/* execute a register as ex commands with the first addressed line as the current line;
+		 * the reference interprets the one content the harness stores for this purpose, "d" */
+		struct xcmd d;
+		int idx = xreg_index(c->reg);
+		if (!m->reg_set[idx] || strcmp(m->reg[idx], "d\n"))
+			return 1;
+		m->cur = b;
+		memset(&d, 0, sizeof(d));
+		d.cmd = XC_D;
+		return refex_exec(m, &d, filetext);
+	}
 	}
 	return 1;
 }
